@@ -5,7 +5,7 @@ use proptest::prelude::*;
 use serde::{Deserialize, Serialize};
 use vpmodel::engine::{Engine, Pass, Verdict};
 use vpmodel::gen::{self, Tier, BS};
-use vpmodel::layout::{self, LayoutSpec};
+use vpmodel::layout::{self, Gap, LayoutSpec};
 use vpmodel::oracle::check_csvdump;
 use vpmodel::run::{Callback, RunOpts};
 use vpmodel::spec::ChainSpec;
@@ -13,7 +13,7 @@ use vpmodel::spec::ChainSpec;
 pub const DEF: PropDef = PropDef {
     id: "C03",
     level: "exploration",
-    rule: "one generated logical chain (base heights with 1..4-byte VarInts) written in the canonical single-file layout and in 1..2 generated layouts (1..60 files, file numbers up to 2^64-1, name padding 0..13 digits, any physical order, zero/garbage/magic-lookalike gaps, unindexed decoy blocks, holes beyond the 32 KiB buffer and beyond 4 GiB, foreign index keys, extra directory entries, multi-table LevelDB); csvdump of every layout must be byte-identical to the canonical layout's and to the reference model. Non-trivial = (>=2 files or a non-identity physical order) and >=1 backward seek induced by the height order; distinct by layout hash. Foreign index keys are a generated subset of twelve keys (file info, last file, flags, reindex marker, obfuscation key, tx index entries, keys sorting right before and after 'b').",
+    rule: "one generated logical chain (base heights with 1..4-byte VarInts) written in the canonical single-file layout and in 1..2 generated layouts (1..60 files, file numbers up to 2^64-1, name padding 0..13 digits, any physical order, zero/garbage/magic-lookalike gaps, unindexed decoy blocks, holes beyond the 32 KiB buffer and beyond 4 GiB, foreign index keys, extra directory entries, multi-table LevelDB); csvdump of every layout must be byte-identical to the canonical layout's and to the reference model. Non-trivial = (>=2 files or a non-identity physical order) and >=1 backward seek induced by the height order; distinct by layout hash. Foreign index keys are a generated subset of twelve keys (file info, last file, flags, reindex marker, obfuscation key, tx index entries, keys sorting right before and after 'b'). Bounded-exhaustive part 'varint-width-boundaries': one small chain for the largest k-byte and the smallest (k+1)-byte Bitcoin Core VarInt value of each locator field - height (to 2^31), file number (to 2^64-1, ten bytes) and data offset (sparse files, to 4.4 TB).",
     assumptions: &["rusty-leveldb writes an index the tool (same crate, as reader) can open", "blk files behind RELATIVE symlinks are not generated (absolute links, dangling, looping and directory links are)"],
     run,
     replay,
@@ -102,7 +102,47 @@ pub fn check(c: &Case) -> Verdict {
     Verdict::Pass(Pass { nontrivial, key: key_of(&c.layouts), classes, known: vec![], sub_evals: 1 + c.layouts.len() as u64, sample: Some(sample), extra_keys: vec![] })
 }
 
+/// Bitcoin Core VarInt width boundaries: the largest value of k bytes and the smallest of k+1 bytes
+fn varint_boundaries() -> Vec<u64> {
+    let mut v = Vec::new();
+    let mut first_of_next: u64 = 0x80; // smallest 2-byte value
+    loop {
+        v.push(first_of_next - 1);
+        v.push(first_of_next);
+        match first_of_next.checked_mul(128).and_then(|x| x.checked_add(0x80)) {
+            Some(n) => first_of_next = n,
+            None => break,
+        }
+    }
+    v.push(u64::MAX);
+    v
+}
+
+/// One small chain per boundary value of each of the three VarInt-encoded locator fields of an index record
+/// (height, file number, data offset): the block must be found wherever the boundary puts it.
+fn boundary_cases() -> Vec<Case> {
+    let scripts: Vec<Vec<u8>> = (0..3usize).map(|i| vec![0x51 + i as u8, 0x51 + i as u8, 0x87]).collect();
+    let mk = |base: u64, number: u64, lead: Gap| Case {
+        chain: vpmodel::spec::chain_from_scripts(vpmodel::chain::Coin::Bitcoin, &scripts, &[5_000], 1, 1, base, 1_500_000_000),
+        layouts: vec![LayoutSpec { files: vec![layout::FileSlot { number, pad: 5 }], lead: vec![lead], ..LayoutSpec::canonical() }],
+    };
+    let mut v = Vec::new();
+    for b in varint_boundaries() {
+        // heights are an `int` in Bitcoin Core; the three blocks straddle the boundary
+        if b >= 2 && b < (1u64 << 31) - 2 {
+            v.push(mk(b - 1, 0, Gap::None));
+        }
+        v.push(mk(0, b, Gap::None));
+        // data offset of the first block == b (8 bytes of magic and size precede it); sparse files up to 8 TiB
+        if b >= 8 && b <= (1u64 << 43) {
+            v.push(mk(0, 3, Gap::Hole(b - 8)));
+        }
+    }
+    v
+}
+
 fn run(eng: &Engine, a: &Args) {
+    eng.enumerate("varint-width-boundaries", boundary_cases(), check);
     // layouts without multi-GiB holes first: a wrong seek then fails fast instead of reading a hole
     let (n1, n2) = if a.tier == Tier::Quick { (200, 100) } else { (2700, 1300) };
     let tier = a.tier;
@@ -112,7 +152,7 @@ fn run(eng: &Engine, a: &Args) {
 
 fn replay(part: &str, case: serde_json::Value) -> Option<Verdict> {
     match part {
-        "layout-vs-canonical" | "layout-vs-canonical-4GiB" => Some(check(&serde_json::from_value(case).ok()?)),
+        "layout-vs-canonical" | "layout-vs-canonical-4GiB" | "varint-width-boundaries" => Some(check(&serde_json::from_value(case).ok()?)),
         _ => None,
     }
 }
